@@ -180,12 +180,12 @@ K("C06.line_absolute_position", ["C06"], LINE, "check_line_absolute_position", "
   "exact translation by the cell origin; localize is the inverse")
 K("C06.line_predicates", ["C06"], LINE, "check_line_predicates_translation_invariant",
   "Line::is_horizontal/is_vertical/is_aabb_parallel/is_aabb_perpendicular/octant/slope/has_endpoint",
-  "p(translate(l, d)) = p(l) for lattice lines and cell offsets (quick: < 16 cells, thorough: < 256 cells)", timeout=300, timeout_thorough=1800)
+  "p(translate(l, d)) = p(l) for lattice lines and cell offsets (quick: < 16 cells, thorough: < 64 cells)", timeout=300, timeout_thorough=1800)
 K("C06.line_slope", ["C06"], LINE, "check_line_slope_translation_invariant", "Line::slope",
   "numerator and denominator of the slope are exact differences, identical after translation (so slope, angle and heading are)",
   timeout=300, timeout_thorough=1800)
 K("C06.line_octant", ["C06"], LINE, "check_line_octant_slope_translation_invariant", "Line::octant",
-  "translation invariant on the lattice (quick: < 16 cells, thorough: < 256 cells)", timeout=300, timeout_thorough=1800)
+  "translation invariant on the lattice (quick: < 16 cells, thorough: < 64 cells)", timeout=300, timeout_thorough=1800)
 K("C01.line_heading_total", ["C01", "C14"], LINE, "check_line_heading_total", "Line::line_angle / heading / Direction::threshold_length",
   "for every f32 returned by angle_rad: line_angle in the closed set, heading never reaches unreachable!",
   assumes=["Line::angle_rad stubbed by any f32 (f32::atan is a foreign function for Kani)"])
